@@ -8,6 +8,7 @@ CONSTANTS
   LitPool <- LitEscaped
   Schemes <- SchemesAll
   MaxSchemes = 3
+  MaxHistory = 2
   MaxBaseQ = 3
   MaxPatQ = 2
 INVARIANTS PathHolds OrderIndependent QueryHolds SchemeHolds RawQueryRoundTrip
